@@ -4,7 +4,11 @@
 From HC Require Import CodecDesc.
 Local Open Scope string_scope.
 
-Definition src_Node : option codec_desc := None.   (* common/node.rs: encode: statement let rest = map_encode!buffer, self.index, self.length *)
+Definition src_Node : option codec_desc := Some {|   (* common/node.rs *)
+  cd_size := [("index", FU64); ("length", FU64); ("hash", FHash32)];
+  cd_enc := [("index", FU64); ("length", FU64); ("hash", FHash32)];
+  cd_dec_types := [FU64; FU64; FHash32];
+  cd_ctor := ["index"; "length"; "hash"] |}.
 Definition src_RequestBlock : option codec_desc := Some {|   (* common/peer.rs *)
   cd_size := [("index", FU64); ("nodes", FU64)];
   cd_enc := [("index", FU64); ("nodes", FU64)];
